@@ -1,6 +1,7 @@
 package main
 
 import (
+	"math/rand"
 	"fmt"
 	"go/constant"
 	"go/token"
@@ -82,6 +83,8 @@ type Machine struct {
 	misaligned []string
 	poolGets int
 	poolCap  int
+	concrete *rand.Rand
+	obs      []string
 	zeroReads int
 
 	skipPhi bool
@@ -185,6 +188,9 @@ func (m *Machine) choose(n int) int {
 	}
 	if m.inArm {
 		panic(Unsupported{"choice inside if-converted arm"})
+	}
+	if m.concrete != nil {
+		return m.concrete.Intn(n)
 	}
 	i := len(m.taken)
 	k := 0
